@@ -636,27 +636,63 @@ def rule_simulator(repo: Repo) -> List[Ob]:
         ok = len(loops) == 1 and isinstance(loops[0].iter, ast.Name) and loops[0].iter.id == m.params()[1] and "reversed" not in src(loops[0])
     obs.append(Ob("S-simulator", f"{rp}::Simulator._[list]::order", rp, m.node.lineno if m else 0, "Simulator._[list]", ok,
                   "statements are executed in source order" if ok else "statement list is not executed in plain source order"))
-    # if handler: first true condition wins, same index for condition and branch, else only afterwards
+    # if handler: first true condition wins, condition k selects branch k, else only if none held  (decided on the CFG)
     m = kinds.get("IfStatem")
     ok = False
-    msg = "IfStatem handler not recognised"
+    msg = "IfStatem handler not found"
     if m is not None:
         el = m.params()[1]
-        loops = [n for n in walk_no_nested(m.node) if isinstance(n, ast.For)]
-        if len(loops) == 1 and isinstance(loops[0].target, ast.Name):
-            i = loops[0].target.id
-            it = src(loops[0].iter)
-            ifs = [n for n in loops[0].body if isinstance(n, ast.If)]
-            if len(ifs) == 1:
-                t = src(ifs[0].test)
-                r = [x for x in ifs[0].body if isinstance(x, ast.Return)]
-                same = f"{el}.conditions[{i}].evaluate(" in t and r and f"{el}.branches[{i}]" in src(r[0]) and it == f"range(len({el}.conditions))"
-                after = m.node.body[m.node.body.index(loops[0]) + 1:]
-                else_ok = any(isinstance(x, ast.If) and f"{el}.else_branch" in src(x.test) and any(isinstance(y, ast.Return) and f"{el}.else_branch" in src(y) for y in x.body) for x in after)
-                fallthrough = any(isinstance(x, ast.Return) and src(x.value) == m.params()[2] for x in after)
-                ok = bool(same) and else_ok and fallthrough and not loops[0].orelse
-                msg = "conditions are tested in order, the first true one selects the branch with the same index, else runs only if none held, otherwise the state is unchanged" if ok else \
-                    "if/elif/else handler deviates from first-match semantics (index pairing, else placement or fall-through)"
+        c = cfg_of(m.node)
+        d = Defs(m.node, m.params()[0])
+
+        def derives(e, attr):
+            return ("attr:" + attr) in d.roots(e) and ("param:" + el) in d.roots(e)
+        tests = [n for n in c.nodes if n.kind == "test" and any(isinstance(x, ast.Call) and call_name(x) == "evaluate" and derives(x.func.value, "conditions") for x in ast.walk(n.ast))]
+        execs = [n for n in c.nodes if n.ast is not None and n.kind == "stmt" and any(isinstance(x, ast.Call) and call_name(x) == "execute" and x.args and derives(x.args[0], "branches") for x in ast.walk(n.ast))]
+        elses = [n for n in c.nodes if n.ast is not None and n.kind == "stmt" and any(isinstance(x, ast.Call) and call_name(x) == "execute" and x.args and "else_branch" in src(x.args[0]) for x in ast.walk(n.ast))]
+        problems = []
+        if not tests or not execs:
+            problems.append("no condition test / branch execution found")
+        for b in execs:
+            # the branch runs only if its condition held
+            ct = [t for t in tests if c.dominates(t, b) and any(x is b or c.reachable(x, b, avoid={t}) for x, lab in c.succ[t] if lab is True)
+                  and not any(x is b or c.reachable(x, b, avoid={t}) for x, lab in c.succ[t] if lab is False)]
+            if not ct:
+                problems.append("a branch can run although its condition was not tested true")
+            # after a branch ran no further condition is tested and the else branch cannot run
+            if any(c.reachable(b, t) for t in tests):
+                problems.append("after a branch ran, later conditions are still tested (all true branches run, not the first)")
+            if any(c.reachable(b, e) for e in elses):
+                problems.append("the else branch can run after a branch ran")
+        for e in elses:
+            for t in tests:
+                for x, lab in c.succ[t]:
+                    if lab is True and (x is e or c.reachable(x, e, avoid={t})) and not any(x is b or c.reachable(x, b, avoid={t}) for b in execs):
+                        problems.append("the else branch is reachable from a true condition")
+        if not elses:
+            problems.append("else branch is never executed")
+        # pairing of condition k with branch k
+        pair_ok = False
+        for b in execs:
+            call = [x for x in ast.walk(b.ast) if isinstance(x, ast.Call) and call_name(x) == "execute"][0]
+            barg = call.args[0]
+            for t in tests:
+                ev = [x for x in ast.walk(t.ast) if isinstance(x, ast.Call) and call_name(x) == "evaluate"][0]
+                carg = ev.func.value
+                if isinstance(barg, ast.Subscript) and isinstance(carg, ast.Subscript) and src(barg.slice) == src(carg.slice):
+                    pair_ok = True
+                if isinstance(barg, ast.Name) and isinstance(carg, ast.Name):
+                    for loop in [n for n in walk_no_nested(m.node) if isinstance(n, ast.For)]:
+                        if isinstance(loop.iter, ast.Call) and call_name(loop.iter) == "zip" and isinstance(loop.target, ast.Tuple) and len(loop.target.elts) == 2 and len(loop.iter.args) == 2:
+                            tn = [x.id for x in loop.target.elts if isinstance(x, ast.Name)]
+                            zs = [src(a) for a in loop.iter.args]
+                            if len(tn) == 2 and ((tn[0] == carg.id and tn[1] == barg.id and zs[0].endswith("conditions") and zs[1].endswith("branches")) or
+                                                 (tn[1] == carg.id and tn[0] == barg.id and zs[1].endswith("conditions") and zs[0].endswith("branches"))):
+                                pair_ok = True
+        if not pair_ok:
+            problems.append("condition k is not paired with branch k")
+        ok = not problems
+        msg = "conditions are tested in order; the first true one runs the branch at the same position and nothing else; else runs only if none held" if ok else "; ".join(sorted(set(problems)))
     obs.append(Ob("S-simulator", f"{rp}::Simulator._[IfStatem]::first-match", rp, m.node.lineno if m else 0, "Simulator._[IfStatem]", ok, msg))
     # simulate: guard false => stutter
     f = repo.function(rp, "Simulator.simulate")
